@@ -227,8 +227,14 @@ pub fn run(ctx: &Ctx) -> i32 {
         st.count("boundary_code_point_sets");
         check_case(ctx, st, tcs, Settings::new(m | surr));
     });
+    let det = gen::cluster_repeat_cases();
+    let det_settings = [REP, REP | SURR, REP | VERB, REP | CAP | SURR, 0, REP | DIGIT, REP | NOEND];
+    par_for(&ctx.run, det.len() * det_settings.len(), |i, st| {
+        st.count("cluster_repeat_cases");
+        check_case(ctx, st, &det[i % det.len()], Settings::new(det_settings[i / det.len()]));
+    });
     let n = if ctx.thorough { 150_000 } else { 8_000 };
-    let names = ["astral", "mixed", "graph", "case", "ws", "classes"];
+    let names = ["astral", "mixed", "graph", "case", "ws", "classes", "clusters"];
     let alphabets: Vec<(String, Vec<String>)> = names.iter().map(|a| (a.to_string(), gen::alphabet(a))).collect();
     par_for(&ctx.run, n, |i, st| {
         let mut rng = Rng::new(seed, 0x110_0000 + i as u64);
